@@ -29,3 +29,28 @@ pub assume_specification<T: Ord>[ <[T]>::binary_search ](s: &[T], x: &T) -> (r: 
         r matches Err(i) ==> i <= s@.len(),
         T::obeys_cmp_spec() && sorted_strict(s@) ==> (r is Ok <==> exists|k: int| 0 <= k < s@.len() && (#[trigger] s@[k]).cmp_spec(x) == core::cmp::Ordering::Equal);
 
+
+// ---- UTF-16 (used by the ISO-639 language packing of mdhd)
+/// UTF-16 code units of a string (uninterpreted except for the ASCII axiom below)
+pub uninterp spec fn utf16_units(s: Seq<char>) -> Seq<u16>;
+/// remaining units of a `str::encode_utf16` iterator
+pub uninterp spec fn enc_rest(it: core::str::EncodeUtf16<'_>) -> Seq<u16>;
+
+#[verifier::external_type_specification]
+#[verifier::external_body]
+pub struct ExEncodeUtf16<'a>(core::str::EncodeUtf16<'a>);
+
+pub assume_specification<'a>[ str::encode_utf16 ](s: &'a str) -> (r: core::str::EncodeUtf16<'a>)
+    ensures enc_rest(r) == utf16_units(s@);
+
+pub assume_specification<'a>[ <core::str::EncodeUtf16<'a> as Iterator>::next ](it: &mut core::str::EncodeUtf16<'a>) -> (r: Option<u16>)
+    ensures
+        enc_rest(*old(it)).len() == 0 ==> r is None && enc_rest(*final(it)) == enc_rest(*old(it)),
+        enc_rest(*old(it)).len() > 0 ==> r == Some(enc_rest(*old(it))[0]) && enc_rest(*final(it)) == enc_rest(*old(it)).skip(1);
+
+/// ASSUMED fact about UTF-16: every character below U+0080 is one unit equal to its scalar value
+#[verifier::external_body]
+pub proof fn axiom_utf16_ascii(s: Seq<char>)
+    requires forall|i: int| 0 <= i < s.len() ==> (#[trigger] s[i] as u32) < 0x80
+    ensures utf16_units(s).len() == s.len(), forall|i: int| 0 <= i < s.len() ==> #[trigger] utf16_units(s)[i] == s[i] as u16
+{}
